@@ -2,6 +2,7 @@ import Dcg.Model.Infer
 import Dcg.Proofs.Infer
 import Dcg.Proofs.InferCompose
 import Dcg.Proofs.MemberRename
+import Dcg.Proofs.SingularName
 /-
 C16 — a model inferred from sample data accepts that sample.
 Only property theorems live here; helper lemmas are in Dcg/Proofs/Infer.lean.
@@ -290,5 +291,94 @@ theorem shared_registry_refuted :
   decide +kernel
 
 end memberRename
+
+/-! ### names of array-item classes: singularised after sanitising, re-sanitised by the per-module pass (C16-g)
+
+`Model.SingularName`: stage 1 `firstName` (class-name form, then inflect's singular — unchecked), stage 2 `repass` (the first loop of
+`Parser.__replace_duplicate_name_in_module` for one class on the fresh scoped registry). Tie to the code: campaign `naming of array-item
+classes` (vlib/props/c16_singular.py) — stage 1 against `ModelResolver.get_class_name(singular_name=True)`, the second stage in Lean
+(`res.modpass`) against the real pass on real DataModel objects, on the computed keyword-plural pool. -/
+section singularName
+open Dcg.Model.Resolver Dcg.Model.MemberRename Dcg.Model.SingularName Dcg.Proofs.Resolver Dcg.Proofs.MemberRename
+  Dcg.Proofs.SingularName Dcg.Gen.ResolverTables
+
+/-- The per-module pass RE-SANITISES: whatever the first stage left as the name of an item class (`first`: empty, a keyword, anything), the name it
+ends with is one of the candidates `N, NModel, NModel1, …` built from `N = class_name_generator(first)` — never from `first` itself — for ANY name functions,
+imported names and first name. (The seeded fast path returns `first` unchanged: `fast_path_refuted`.) -/
+theorem item_class_resanitised (cfg : Cfg) (imported : List Str) (path first u : Str)
+    (h : repass cfg imported path first = some u) :
+    ∃ k, u = (dotSplit (modCfg cfg) first).1 ++ cand moduleDupSuffix [] (cfg.cn (dotSplit (modCfg cfg) first).2) k := by
+  rw [repass_eq] at h
+  cases hu : uniqueName (modCfg cfg) (State.init imported) (cfg.cn (dotSplit (modCfg cfg) first).2) true with
+  | none => simp [hu] at h
+  | some w =>
+    simp [hu] at h
+    unfold uniqueName at hu
+    obtain ⟨m, hm, _⟩ := goU_first hu
+    refine ⟨m, ?_⟩
+    rw [← h, hm]
+    simp [modCfg]
+
+/-- the key `s`: class-name form `S`, inflect's singular is the empty string, the pass ends with `Field` -/
+theorem empty_singular_repaired : finalName (defaultCfg [("S".toList, "Item".toList, [])] [] "Item".toList) [] "p".toList "s".toList = some "Field".toList := by decide +kernel
+
+/-- … and it is not a name the module imports -/
+theorem item_class_not_imported (cfg : Cfg) (imported : List Str) (path first u : Str)
+    (hpre : (dotSplit (modCfg cfg) first).1 = []) (h : repass cfg imported path first = some u) : u ∉ imported := by
+  rw [repass_eq, hpre] at h
+  cases hu : uniqueName (modCfg cfg) (State.init imported) (cfg.cn (dotSplit (modCfg cfg) first).2) true with
+  | none => simp [hu] at h
+  | some w =>
+    simp [hu] at h
+    unfold uniqueName at hu
+    have := goU_fresh hu
+    rw [taken_init] at this
+    exact h ▸ this
+
+/-- Hence the final name of an item class that is alone with its first name has every property `ok` that class-name forms have and that the duplicate
+suffixes keep (for `ok` = non-keyword identifier: `classForm_usable` is the first hypothesis for the default generator; the second is about appending `Model`
+and digits) — whatever inflect answered in between. NOT claimed for two classes with the same keyword singular: `dup_singular_keyword_witness`. -/
+theorem item_class_name_ok (ok : Str → Prop) (cfg : Cfg) (hcn : ∀ n, ok (cfg.cn n))
+    (hcand : ∀ n k, ok n → ok (cand moduleDupSuffix [] n k))
+    (imported : List Str) (path first u : Str)
+    (hpre : (dotSplit (modCfg cfg) first).1 = []) (h : repass cfg imported path first = some u) : ok u := by
+  obtain ⟨k, hk⟩ := item_class_resanitised cfg imported path first u h
+  rw [hpre] at hk
+  rw [hk]
+  exact hcand _ _ (hcn _)
+
+/-- the default `class_name_generator` only ever answers with a non-keyword identifier (its retry loop ends on nothing else) -/
+theorem classForm_usable (n u : Str) (h : classForm? n = some u) : usable u = true := by
+  unfold classForm? validName? at h
+  split at h
+  · exact retryLoop_usable _ _ _ _ _ _ h
+  · cases h
+
+/-- the default configuration, no singular table (stage 2 never singularises) -/
+abbrev c0 : Cfg := defaultCfg [] [] []
+
+/-- the four unusable singular forms there are for the default generator on ASCII keys (``, `None`, `True`, `False`; campaign `naming of array-item
+classes` computes them from inflect and keyword.kwlist): what the pass makes of them -/
+theorem unusable_singulars_repaired :
+    (["".toList, "None".toList, "True".toList, "False".toList].map (fun f => repass c0 ["BaseModel".toList] "p".toList f))
+      = [some "Field".toList, some "None_1".toList, some "True_1".toList, some "False_1".toList] := by
+  decide +kernel
+
+/-- REFUTATION of the other design (a name not yet taken in the module is accepted as it is): the keyword and the empty name go through,
+`class None(BaseModel):` / `class (BaseModel):` are emitted -/
+theorem fast_path_refuted :
+    fastPass c0 (State.init []) ["BaseModel".toList] [("p".toList, "None".toList), ("q".toList, [])]
+      = [some "None".toList, some []] ∧ usable "None".toList = false ∧ usable [] = false := by
+  decide +kernel
+
+/-- the recorded defect C16-dup-singular-keyword in the model (C06's `replaceDuplicateNameInModule`, tied to the code on these inputs in every run): two item
+classes whose singular is the same keyword are `None`, `None1` after stage 1, the second remembers `None` as its first desired name; the first loop repairs
+`None` → `None_1`, the second loop hands the free name `None` back to the other class. The theorems above are about ONE class per first name. -/
+theorem dup_singular_keyword_witness :
+    replaceDuplicateNameInModule c0 [] [⟨"p".toList, "None".toList, []⟩, ⟨"q".toList, "None1".toList, "None".toList⟩]
+      = some ["None_1".toList, "None".toList] := by
+  decide +kernel
+
+end singularName
 
 end Dcg.Props.C16
